@@ -110,4 +110,14 @@ def coreThrows (nd : Bool) : Call R → Bool
 def dotAsGemv (g : L1Call R) (r : Int) : GemvCall R :=
   ⟨'N', 1, g.n, 1, g.x, g.incx, g.y, g.incy, 0, r, 1⟩
 
+/-- the value `core::dot` / `dotu` / `dotc` deliver for element type `ty` ('s','d','c','z'); `none` = the result cell is never
+    written.  core.hpp:295 (float `dot`) and 357/362 (complex `dotu`) go through xGEMV, which returns at once when n = 0;
+    `ddot`, `cdotc`, `zdotc` are called directly and return the sum (0 for n ≤ 0). -/
+def dotResult (ty : Char) (c : Call R) (mem : Mem R) : Option R :=
+  match c with
+  | .dot g => if ty = 's' ∧ g.n ≤ 0 then none else some (dotVal false g.n g.x g.incx g.y g.incy mem)
+  | .dotu g => if g.n ≤ 0 then none else some (dotVal false g.n g.x g.incx g.y g.incy mem)
+  | .dotc g => some (dotVal true g.n g.x g.incx g.y g.incy mem)
+  | _ => none
+
 end Multi.Blas.Front
